@@ -195,68 +195,47 @@ def run(chk):
     r5 = chk.rule("R12.5", "scored curve = stored curve: the order of coefficient transforms (swap / smooth / kernel) agrees between the scoring path and the read-back path", 2)
 
     # ------------------------------------------------------------------ R12.1
-    specs = [
-        (HTC, "fit_hdd_tidd_cdd", {True: "hdd_tidd_cdd_smooth", False: "hdd_tidd_cdd"}),
-        (CHT, "fit_c_hdd_tidd", {True: "c_hdd_tidd_smooth", False: "c_hdd_tidd"}),
-    ]
+    # the three fit functions interpreted with the optimiser, the objective factory and the bounds helpers as recorders (rules/fit_tables.py)
+    from rules.fit_tables import functions_of, outcomes as fit_outcomes, rows_of
     quads: List[Tuple[FuncInfo, str, Dict[str, str]]] = []
-    for mod, fn, keys in specs:
-        f = chk.repo.func(mod, fn)
-        cfg = CFG(f.node)
-        rd = ReachingDefs(f.node, cfg)
-        b0 = [s for s in cfg.stmts() if isinstance(s, ast.Assign) and unparse(s.targets[0]) == "bnds_0" and isinstance(s.value, ast.List)]
-        cid = [s for s in cfg.stmts() if isinstance(s, ast.Assign) and unparse(s.targets[0]) == "coef_id" and isinstance(s.value, ast.List)]
-        for smooth in (True, False):
-            def under(s):
-                return any(unparse(t) == "smooth" and pol == smooth for t, pol in cfg.guards(s))
-            bs = [s for s in b0 if under(s)]
-            cs = [s for s in cid if under(s)]
-            key = keys[smooth]
-            if len(bs) != 1 or len(cs) != 1:
-                r1.require(False, f"{f.key}|{key}|tables-found", f.where(), f"{fn}: bnds_0 / coef_id for smooth={smooth} not found ({len(bs)}/{len(cs)})")
-                continue
-            ids = [const_str(x) for x in cs[0].value.elts]
-            r1.require(tuple(ids) == SHAPES[key], f"{f.key}|{key}|coef_id", f.where(cs[0]), f"{fn} (smooth={smooth}): coef_id {ids} != agreed {list(SHAPES[key])}")
-            ents = bs[0].value.elts
-            r1.require(len(ents) == len(ids), f"{f.key}|{key}|bounds-length", f.where(bs[0]), f"{fn} (smooth={smooth}): {len(ents)} bounds for {len(ids)} coefficients")
-            for i, (e, cn) in enumerate(zip(ents, ids)):
-                kind, texts = _bound_kind(f, rd, bs[0], e)
-                if kind == "k":
-                    wantk = ["[0, 1]"] if fn == "fit_hdd_tidd_cdd" else ["[0, 1000.0]"]
-                    r1.require(texts == wantk, f"{f.key}|{key}|k-range:{i}", f.where(bs[0]), f"{fn}: smoothing bounds at position {i} must be {wantk[0]}; found {texts}")
-                if kind == "beta" and fn == "fit_hdd_tidd_cdd":
-                    r1.require(texts == ["[0, np.abs(max_slope)]"], f"{f.key}|{key}|beta-range:{i}", f.where(bs[0]), f"{fn}: slope bounds at position {i} must be [0, |max_slope|] (non-negative slopes); found {texts}")
-                r1.require(kind == _kind_of_coef(cn), f"{f.key}|{key}|position:{i}:{cn}", f.where(bs[0]),
-                           f"{fn} (smooth={smooth}): bounds position {i} is `{unparse(e)}` (a {kind} range: {texts[:2]}) but coefficient {i} is `{cn}`",
-                           sample={"function": fn, "model": key, "position": i, "coefficient": cn, "bounds": unparse(e), "definitions": texts[:2]})
-            # the quadruple for R12.2
-            env = {}
-            for s in cfg.stmts():
-                if isinstance(s, ast.Assign) and unparse(s.targets[0]) in ("model_fcn", "weight_fcn", "TSS_fcn") and under(s):
-                    env[unparse(s.targets[0])] = unparse(s.value)
-            quads.append((f, key, env))
-        # admissible ranges
-        t = unparse(f.node)
-        r1.require("intercept_bnds = np.quantile(obs, [0.01, 0.99])" in t, f"{f.key}|intercept-quantiles", f.where(), f"{fn}: the base load must be bounded by the 1% and 99% quantiles of observed usage")
-    f = chk.repo.func(HTC, "fit_hdd_tidd_cdd")
-    t = unparse(f.node)
-    r1.require("T_min = np.min(T)" in t and "T_max = np.max(T)" in t and "np.partition(T, N_min)[N_min]" in t and "np.partition(T, -N_min)[-N_min]" in t and "c_hdd_bnds = [T_min, T_max]" in t,
-               f"{f.key}|bp-within-observed-temperatures", f.where(), "fit_hdd_tidd_cdd: balance points must be bounded by the observed temperatures (min/max, or the segment_minimum_count partition)")
-    f = chk.repo.func(CHT, "fit_c_hdd_tidd")
-    t = unparse(f.node)
-    ccfg = CFG(f.node)
-    got = {}
-    for s2 in ccfg.stmts():
-        if isinstance(s2, ast.Assign) and unparse(s2.targets[0]) == "c_hdd_beta_bnds":
-            g = {(unparse(tt), pol) for tt, pol in ccfg.guards(s2)}
-            if ("initial_fit", True) in g:
-                got["initial"] = unparse(s2.value)
-            elif ("tdd_beta < 0", True) in g:
-                got["negative-prior"] = unparse(s2.value)
-            elif ("tdd_beta < 0", False) in g:
-                got["nonnegative-prior"] = unparse(s2.value)
-    r1.require(got == {"initial": "[-max_slope, max_slope]", "negative-prior": "[-max_slope, 0]", "nonnegative-prior": "[0, max_slope]"},
-               f"{f.key}|slope-sign-from-prior", f.where(), f"fit_c_hdd_tidd: the slope range must keep the sign of the prior slope (negative => heating) and be two-sided only on the initial fit; found {got}")
+    seen_quads = set()
+    for o in fit_outcomes(chk):
+        f, key, rec = o["function"], o["key"], o["rec"]
+        scen = f"{key}|{'initial' if o['initial'] else 'final'}|prior={o['prior']}"
+        if "raises" in rec or "optimizer" not in rec or "objective" not in rec or rec.get("ran") != 1 or rec.get("returns") != "RESULT":
+            r1.require(False, f"{f.key}|{scen}|runs-the-optimiser", f.where(), f"{f.name} ({scen}): must build the objective, run the optimiser once and return its result; interpreted: "
+                       f"{ {k_: rec.get(k_) for k_ in ('raises', 'ran', 'returns')} }")
+            continue
+        ids = list(rec["objective"].get("coef_id") or [])
+        shp = list(SHAPES[key])
+        r1.require(ids == shp and list(rec["optimizer"].get("coef_id") or []) == shp, f"{f.key}|{key}|coef_id|{scen}", f.where(),
+                   f"{f.name} ({scen}): coef_id {ids} (objective) / {rec['optimizer'].get('coef_id')} (optimiser) != agreed {shp}")
+        b0 = rows_of(rec.get("bnds_0"))
+        want = o["want_bounds"]
+        if b0 is None or len(b0) != len(shp):
+            r1.require(False, f"{f.key}|{key}|bounds-length|{scen}", f.where(), f"{f.name} ({scen}): {len(b0) if b0 is not None else 'no'} bounds for {len(shp)} coefficients")
+        else:
+            for i, (got_b, want_b, cn) in enumerate(zip(b0, want, shp)):
+                okb = len(got_b) == 2 and all(isinstance(x, (int, float)) and abs(x - y) < 1e-9 for x, y in zip(got_b, want_b))
+                what = {"bp": "the observed temperatures (min / max on the initial fit, the segment_minimum_count order statistics afterwards; a balance point pinned at a limit keeps that limit)",
+                        "beta": "the slope range (non-negative for the two-slope model; for the one-slope model the sign of the prior slope, two-sided only on the initial fit), up to |max slope| scaled by the settings",
+                        "k": "the smoothing range", "intercept": "the 1 % and 99 % quantiles of observed usage"}[_kind_of_coef(cn)]
+                r1.require(okb, f"{f.key}|{key}|position:{i}:{cn}|{scen}", f.where(),
+                           f"{f.name} ({scen}): the bounds of coefficient {i} `{cn}` are {got_b}; they must be {want_b} = {what}",
+                           sample={"function": f.name, "model": key, "position": i, "coefficient": cn, "bounds": got_b, "expected": want_b})
+        opt_b = rec["optimizer"].get("bnds")
+        r1.require(opt_b is rec.get("bnds_out") and (rec.get("bnds_given") is None or rec.get("bnds_given") is rec.get("bnds_0")), f"{f.key}|{key}|bounds-through-update|{scen}", f.where(),
+                   f"{f.name} ({scen}): the optimiser must get the table the bounds-update helper returns (called with the caller's bounds and the fresh table)")
+        if o.get("final_bounds_row0") is not None:
+            r1.require(rows_of(opt_b) is not None and rows_of(opt_b)[0] == o["final_bounds_row0"], f"{f.key}|{key}|pinned-balance-point|{scen}", f.where(),
+                       f"{f.name} ({scen}): a balance point pinned at a temperature limit must keep the degenerate range {o['final_bounds_row0']} (not be widened); the optimiser gets {rows_of(opt_b)[0] if rows_of(opt_b) else None}")
+        r1.require(rec["objective"].get("alpha") == o["want_alpha"] and rec["objective"].get("initial_fit") is o["initial"], f"{f.key}|{key}|alpha|{scen}", f.where(),
+                   f"{f.name} ({scen}): the objective must be built with alpha_selection on the initial fit and alpha_final afterwards; got alpha={rec['objective'].get('alpha')!r}")
+        r1.require(rec["optimizer"].get("x0") == "X0-ARRAY" and rec["optimizer"].get("obj_fcn") == "OBJECTIVE", f"{f.key}|{key}|start-vector|{scen}", f.where(),
+                   f"{f.name} ({scen}): the optimiser must start from x0.to_np_array() with the objective just built")
+        if (f.key, key) not in seen_quads:
+            seen_quads.add((f.key, key))
+            quads.append((f, key, {k_: (v_ if v_ is not None else "None") for k_, v_ in functions_of(o).items()}))
     # the bounds-preparation helpers are interpreted on small bound tables: one representative row on each side of every guard
     # (degenerate at zero, degenerate away from zero, negative lower bound, unsorted) at every slope / smoothing position
     _check_update_bnds(chk, r1)
@@ -267,12 +246,6 @@ def run(chk):
     TAIL_MODEL = ["T_fit_bnds", "T"]
     TAIL_WEIGHT = ["T", "residual", "sigma", "quantile", "alpha", "min_weight"]
     TAIL_TSS = ["T", "obs"]
-    tf = chk.repo.func(TIDD, "fit_tidd")
-    tenv = {}
-    for s in walk_no_nested(tf.node):
-        if isinstance(s, ast.Assign) and unparse(s.targets[0]) in ("model_fcn", "weight_fcn", "TSS_fcn"):
-            tenv[unparse(s.targets[0])] = unparse(s.value)
-    quads.append((tf, "tidd", tenv))
     for f, key, env in quads:
         shp = list(SHAPES[key])
         for role, tail in (("model_fcn", TAIL_MODEL), ("weight_fcn", TAIL_WEIGHT), ("TSS_fcn", TAIL_TSS)):
